@@ -27,6 +27,12 @@ func (obj Complex) Append(b []byte) []byte {
 	return append(b, ')')
 }
 
+// Readably appends the object to a byte slice. The #C(real imaginary) form
+// written by Append is readable.
+func (obj Complex) Readably(b []byte, p *Printer) []byte {
+	return obj.Append(b)
+}
+
 // Simplify the Object into an int64.
 func (obj Complex) Simplify() any {
 	var b []byte
